@@ -90,11 +90,75 @@ where
         } else {
             RdfXmlFormatter::new(&mut self.write)
         };
-        let mut tf = res.map_err(SinkError)?;
+        let mut tf = CheckingFormatter(res.map_err(SinkError)?);
         rio_format_triples(&mut tf, source)?;
-        tf.finish().map_err(SinkError)?;
+        tf.0.finish().map_err(SinkError)?;
         Ok(self)
     }
+}
+
+/// A wrapper around Rio's formatter,
+/// refusing the triples that would make it produce a document that is not well-formed XML:
+/// * predicates that can not be written as an XML qualified name
+///   (no namespace/local-name split, e.g. IRIs ending with `/` or `#`),
+/// * literals containing characters that are not allowed in XML (e.g. U+0000 or U+FFFE).
+struct CheckingFormatter<F>(F);
+
+impl<F> rio_api::formatter::TriplesFormatter for CheckingFormatter<F>
+where
+    F: rio_api::formatter::TriplesFormatter<Error = io::Error>,
+{
+    type Error = io::Error;
+
+    fn format(&mut self, triple: &rio_api::model::Triple<'_>) -> io::Result<()> {
+        use rio_api::model::{Literal, Term};
+        let iri = triple.predicate.iri;
+        let has_local_name = iri
+            .rfind(|c| !is_xml_name_char(c) || c == ':')
+            .is_some_and(|pos| iri[pos..].chars().any(|c| is_xml_name_start_char(c)));
+        if !has_local_name {
+            return Err(io::Error::new(
+                io::ErrorKind::InvalidInput,
+                format!("RDF/XML can not express <{iri}> as a qualified name"),
+            ));
+        }
+        if let Term::Literal(
+            Literal::Simple { value }
+            | Literal::LanguageTaggedString { value, .. }
+            | Literal::Typed { value, .. },
+        ) = triple.object
+        {
+            if let Some(c) = value.chars().find(|c| !is_xml_char(*c)) {
+                return Err(io::Error::new(
+                    io::ErrorKind::InvalidInput,
+                    format!("character U+{:04X} is not allowed in XML", c as u32),
+                ));
+            }
+        }
+        self.0.format(triple)
+    }
+}
+
+/// [NameStartChar](https://www.w3.org/TR/xml/#NT-NameStartChar), except ':'
+fn is_xml_name_start_char(c: char) -> bool {
+    matches!(c,
+        'A'..='Z' | '_' | 'a'..='z'
+        | '\u{C0}'..='\u{D6}' | '\u{D8}'..='\u{F6}' | '\u{F8}'..='\u{2FF}'
+        | '\u{370}'..='\u{37D}' | '\u{37F}'..='\u{1FFF}' | '\u{200C}'..='\u{200D}'
+        | '\u{2070}'..='\u{218F}' | '\u{2C00}'..='\u{2FEF}' | '\u{3001}'..='\u{D7FF}'
+        | '\u{F900}'..='\u{FDCF}' | '\u{FDF0}'..='\u{FFFD}' | '\u{10000}'..='\u{EFFFF}')
+}
+
+/// [NameChar](https://www.w3.org/TR/xml/#NT-NameChar)
+fn is_xml_name_char(c: char) -> bool {
+    is_xml_name_start_char(c)
+        || matches!(c, ':' | '-' | '.' | '0'..='9' | '\u{B7}' | '\u{0300}'..='\u{036F}' | '\u{203F}'..='\u{2040}')
+}
+
+/// [Char](https://www.w3.org/TR/xml/#NT-Char)
+fn is_xml_char(c: char) -> bool {
+    matches!(c,
+        '\u{9}' | '\u{A}' | '\u{D}' | '\u{20}'..='\u{D7FF}' | '\u{E000}'..='\u{FFFD}' | '\u{10000}'..='\u{10FFFF}')
 }
 
 impl RdfXmlSerializer<Vec<u8>> {
